@@ -285,12 +285,25 @@ def run(ctx):
     ok = any(isinstance(n, ast.Call) and txt(n.func) == 'self.sbuf.append' and [txt(a) for a in n.args] == ['data'] for n in ast.walk(bf.node))
     ctx.ob('T17', bf.fq, 'buffer() appends the data to the send buffer', ok, loc=bf.loc)
     # ---- netstring ------------------------------------------------------------------
+    from sa.consteval import Folder, Unknown
+    folder = Folder(prog.module('socketutils'))
+
+    def const_of(e):
+        if isinstance(e, ast.Constant):
+            return e.value
+        try:
+            return folder.fold(e)
+        except Unknown:
+            return None
     wn = prog.func('socketutils.NetstringSocket.write_ns')
     rn = prog.func('socketutils.NetstringSocket.read_ns')
-    frame = None
-    for n in ast.walk(wn.node):
-        if isinstance(n, ast.Assign) and isinstance(n.value, ast.BinOp):
-            frame = n.value
+    nci = prog.cls('socketutils.NetstringSocket')
+    w2 = Walker(prog, SockModel(prog))
+    sent_vals = []
+    for p in w2.paths(wn, recv=nci):
+        for o in p.ops:
+            if o.kind == 'call' and txt(o.val.func) in ('self.bsock.send', 'self.bsock.sendall') and o.val.args:
+                sent_vals.append(w2.expand(o.val.args[0]))
     parts = []
 
     def flat(e):
@@ -299,23 +312,24 @@ def run(ctx):
             flat(e.right)
         else:
             parts.append(e)
-    if frame is not None:
-        flat(frame)
-    consts = [p.value for p in parts if isinstance(p, ast.Constant)]
-    shape_ok = len(parts) == 4 and isinstance(parts[1], ast.Constant) and isinstance(parts[3], ast.Constant) and \
-        txt(parts[2]) == 'payload' and 'str(size)' in txt(parts[0]) and "encode('ascii')" in txt(parts[0])
+    if sent_vals:
+        flat(sent_vals[0])
+    shape_ok = len(parts) == 4 and txt(parts[2]) == 'payload' and txt(parts[0]).replace(' ', '') in (
+        "str(len(payload)).encode('ascii')", "str(len(payload)).encode()", "b'%d'%len(payload)", "b'%d'%(len(payload),)")
+    sepc = const_of(parts[1]) if len(parts) == 4 else None
+    termc = const_of(parts[3]) if len(parts) == 4 else None
     until = [n for n in ast.walk(rn.node) if isinstance(n, ast.Call) and txt(n.func) == 'self.bsock.recv_until']
-    term = [n for n in ast.walk(rn.node) if isinstance(n, ast.Compare) and isinstance(n.left, ast.Call) and txt(n.left.func) == 'self.bsock.recv'
-            and isinstance(n.comparators[0], ast.Constant)]
+    term = [n for n in ast.walk(rn.node) if isinstance(n, ast.Compare) and isinstance(n.left, ast.Call) and txt(n.left.func) == 'self.bsock.recv']
     rs = [n for n in ast.walk(rn.node) if isinstance(n, ast.Call) and txt(n.func) == 'self.bsock.recv_size']
-    ok = shape_ok and until and term and rs and until[0].args and isinstance(until[0].args[0], ast.Constant) and \
-        until[0].args[0].value == consts[0] and term[0].comparators[0].value == consts[1] and isinstance(term[0].ops[0], ast.NotEq) and \
-        txt(term[0].left.args[0]) == '1' and txt(rs[0].args[0]) == 'size' and until[0].lineno < rs[0].lineno < term[0].lineno
-    ctx.ob('T12.ns', wn.fq, 'writer frames digits + %r + payload + %r; reader reads until the first, parses an int, reads exactly that many '
-           'bytes and requires the second' % tuple((consts + [None, None])[:2]), bool(ok), loc=wn.loc,
+    ints = [n for n in ast.walk(rn.node) if isinstance(n, ast.Call) and call_name(n) == 'int']
+    if not (sent_vals and until and term and rs):
+        raise AnalysisError('anchor vanished: netstring writer/reader call sites')
+    ok = shape_ok and isinstance(sepc, bytes) and isinstance(termc, bytes) and until[0].args and const_of(until[0].args[0]) == sepc and \
+        const_of(term[0].comparators[0]) == termc and isinstance(term[0].ops[0], ast.NotEq) and txt(term[0].left.args[0]) == str(len(termc)) and \
+        bool(ints) and until[0].lineno < rs[0].lineno < term[0].lineno
+    ctx.ob('T12.ns', wn.fq, 'writer frames decimal size + %r + payload + %r; reader reads until the first, parses an int, reads exactly that '
+           'many bytes and requires the second' % (sepc, termc), bool(ok), loc=wn.loc,
            detail='writer parts %s' % [txt(p) for p in parts])
-    sent = any(isinstance(n, ast.Call) and txt(n.func) in ('self.bsock.send', 'self.bsock.sendall') and [txt(a) for a in n.args] == ['data']
-               for n in ast.walk(wn.node))
-    ctx.ob('T12.ns', wn.fq, 'the whole frame is handed to send', sent, loc=wn.loc)
+    ctx.ob('T12.ns', wn.fq, 'the whole frame is handed to send', bool(sent_vals), loc=wn.loc)
     for r, n in (('T10', 5), ('T9.sbuf', 1), ('T9.adv', 1), ('T17', 3), ('T12.ns', 2), ('T7.look', 2)):
         ctx.need(r, n)
